@@ -239,11 +239,12 @@ template <> z_interval_t z_interval_t::AShr(const z_interval_t &x) const {
       // huge shifts.  We limit the number of times the loop is run
       // to avoid wasting too much time on it.
       if (k <= 128) {
-        z_number factor = 1;
-        for (int i = 0; k > i; i++) {
-          factor *= 2;
-        }
-        return (*this) / factor;
+        // An arithmetic right shift rounds towards minus infinity
+        // (e.g., -3 >> 1 = -2) while operator/ truncates, so shift the
+        // bounds instead of dividing the interval.
+        bound_t l = (lb().is_finite() ? bound_t(*(lb().number()) >> k) : lb());
+        bound_t u = (ub().is_finite() ? bound_t(*(ub().number()) >> k) : ub());
+        return z_interval_t(l, u);
       }
     }
     return top();
